@@ -250,6 +250,7 @@ pub fn recipes(subs: &[Subject], rng: &mut Rng, numbers_everywhere: bool) -> Vec
         let felt_at = |p: &Path| -> Felt { Felt::from_hex(get(&s.proof, p).as_str().unwrap()).unwrap() };
         let hexv = |f: Felt| -> Value { json!(format!("{:#x}", f)) };
         let n_inner = get(&s.proof, &cfg(&["fri", "inner_layers"])).as_array().unwrap().len();
+        let nseg_early = s.proof["public_input"]["segments"].as_array().map(|a| a.len()).unwrap_or(0);
         for d in [1u64, 2, 40, 1 << 20] {
             // blow-up exponent +d with every height re-declared
             let df = Felt::from(d);
@@ -306,6 +307,52 @@ pub fn recipes(subs: &[Subject], rng: &mut Rng, numbers_everywhere: bool) -> Vec
                 e.push((vec![Seg::Key("unsent_commitment".into()), Seg::Key("fri".into()), Seg::Key("inner_layers".into())], Edit::DupLastN(m)));
                 e.push((vec![Seg::Key("witness".into()), Seg::Key("fri_witness".into()), Seg::Key("layers".into())], Edit::DupLastN(m)));
                 out.push(Recipe { subj: si, label: format!("redeclare:log_trace+{d},{m} more FRI layers"), edits: e });
+            }
+        }
+        // continuous page headers (none of the accepted proofs has one): a zero product, a huge size
+        {
+            let hp = vec![Seg::Key("public_input".into()), Seg::Key("continuous_page_headers".into())];
+            if get(&s.proof, &hp).is_array() {
+                let hdr = |size: Felt, prod: Felt| json!({"start_address": "0x7", "size": format!("{:#x}", size), "hash": "0x9", "prod": format!("{:#x}", prod)});
+                out.push(Recipe { subj: si, label: "page-header:prod=0".into(), edits: vec![(hp.clone(), Edit::Append(vec![hdr(Felt::ONE, Felt::ZERO)]))] });
+                out.push(Recipe { subj: si, label: "page-header:prod=5".into(), edits: vec![(hp.clone(), Edit::Append(vec![hdr(Felt::ONE, Felt::from(5))]))] });
+                out.push(Recipe { subj: si, label: "page-header:size=2^64".into(), edits: vec![(hp.clone(), Edit::Append(vec![hdr(Felt::TWO.pow(64u64), Felt::from(5))]))] });
+                out.push(Recipe { subj: si, label: "page-header:size=p-1".into(), edits: vec![(hp.clone(), Edit::Append(vec![hdr(Felt::ZERO - Felt::ONE, Felt::from(5))]))] });
+            }
+        }
+        // a tiny trace declared consistently (trace 2^k rows, one inner FRI layer, builtin segments emptied): the public memory no
+        // longer fits its column
+        if n_inner >= 1 && nseg_early > 3 {
+            for k in [4u64, 6, 8] {
+                let lc = felt_at(&cfg(&["log_n_cosets"]));
+                let kf = Felt::from(k);
+                let step = 2u64.min(k);
+                let mut e: Vec<(Path, Edit)> = Vec::new();
+                e.push((cfg(&["log_trace_domain_size"]), Edit::Set(hexv(kf))));
+                let lns = vec![Seg::Key("public_input".into()), Seg::Key("log_n_steps".into())];
+                e.push((lns, Edit::Set(hexv(Felt::from(k.saturating_sub(4))))));
+                for t in [vec!["traces", "original"], vec!["traces", "interaction"], vec!["composition"]] {
+                    let mut p = cfg(&t); p.push(Seg::Key("vector".into())); p.push(Seg::Key("height".into()));
+                    e.push((p, Edit::Set(hexv(kf + lc))));
+                }
+                e.push((cfg(&["fri", "log_input_size"]), Edit::Set(hexv(kf + lc))));
+                e.push((cfg(&["fri", "n_layers"]), Edit::Set(hexv(Felt::TWO))));
+                e.push((cfg(&["fri", "fri_step_sizes"]), Edit::Truncate(1)));
+                e.push((cfg(&["fri", "fri_step_sizes"]), Edit::Append(vec![hexv(Felt::from(step))])));
+                e.push((cfg(&["fri", "log_last_layer_degree_bound"]), Edit::Set(hexv(Felt::from(k - step)))));
+                e.push((cfg(&["fri", "inner_layers"]), Edit::Truncate(1)));
+                let mut p0 = cfg(&["fri", "inner_layers"]); p0.push(Seg::Idx(0));
+                let mut pc = p0.clone(); pc.push(Seg::Key("n_columns".into())); e.push((pc, Edit::Set(hexv(Felt::from(1u64 << step)))));
+                let mut ph = p0.clone(); ph.push(Seg::Key("vector".into())); ph.push(Seg::Key("height".into())); e.push((ph, Edit::Set(hexv(kf + lc - Felt::from(step)))));
+                e.push((vec![Seg::Key("unsent_commitment".into()), Seg::Key("fri".into()), Seg::Key("inner_layers".into())], Edit::Truncate(1)));
+                e.push((vec![Seg::Key("unsent_commitment".into()), Seg::Key("fri".into()), Seg::Key("last_layer_coefficients".into())], Edit::Truncate(1usize << (k - step))));
+                e.push((vec![Seg::Key("witness".into()), Seg::Key("fri_witness".into()), Seg::Key("layers".into())], Edit::Truncate(1)));
+                for i in 3..nseg_early {
+                    let b = vec![Seg::Key("public_input".into()), Seg::Key("segments".into()), Seg::Idx(i), Seg::Key("begin_addr".into())];
+                    let sp = vec![Seg::Key("public_input".into()), Seg::Key("segments".into()), Seg::Idx(i), Seg::Key("stop_ptr".into())];
+                    e.push((sp, Edit::Set(get(&s.proof, &b).clone())));
+                }
+                out.push(Recipe { subj: si, label: format!("redeclare:tiny-trace 2^{k}"), edits: e });
             }
         }
         // the friendly-layer count re-declared consistently everywhere (top level and every vector configuration): nothing bounds it
